@@ -136,6 +136,7 @@ type live struct {
 	headIno  uint64 // inode and on-disk size of the head at the last look, and the
 	headDisk int64  // number of files the model had seen then (a rotation changes it)
 	headGen  int
+	rotSeen  int // rotations of this live WAL seen so far
 }
 
 const tick = time.Millisecond
@@ -421,6 +422,7 @@ func (lv *live) applyEvents(r *rec, l0 int64) error {
 			if len(e.name) > len(headName)+4 {
 				lv.rep.c.Count("rotations_to_index_of_4_or_more_digits", 1)
 			}
+			lv.rotSeen++
 			// read the rotated file back (it may already have been pruned)
 			if b, err := os.ReadFile(filepath.Join(lv.dir, e.name)); err == nil {
 				if why := m.learnFromBytes(h, b); why != "" {
@@ -488,12 +490,12 @@ func (lv *live) measure(r *rec, l0 int64, acked bool) error {
 	// the head must stay the same file: same inode, never shorter, unless this
 	// operation rotated it away
 	if ino, ok := inodeOf(headPath(lv.dir)); true {
-		if lv.headIno != 0 && lv.headGen == len(m.Files)+len(m.Gone) && (!ok || ino != lv.headIno || d < lv.headDisk) {
+		if lv.headIno != 0 && lv.headGen == lv.rotSeen && (!ok || ino != lv.headIno || d < lv.headDisk) {
 			lv.rep.violation(m, "size-limit-removed-head-file", -1,
 				fmt.Sprintf("the head file was replaced or truncated without a rotation: inode %d with %d bytes before, now present=%v inode %d with %d bytes", lv.headIno, lv.headDisk, ok, ino, d), nil)
 			return stopLineage{"the head file was replaced"}
 		}
-		lv.headIno, lv.headDisk, lv.headGen = 0, 0, len(m.Files)+len(m.Gone)
+		lv.headIno, lv.headDisk, lv.headGen = 0, 0, lv.rotSeen
 		if ok {
 			lv.headIno, lv.headDisk = ino, d
 		}
